@@ -302,6 +302,42 @@ fn chains(ctx: &Ctx, pool: &[PoolName], max_depth: usize) {
     }
 }
 
+/// nesting chains of depth 1..=120 (one name, two names, with attributes), singly and extended with itself
+fn deep_documents(ctx: &Ctx) {
+    let chains = deep_chain_docs(120);
+    let found = std::sync::atomic::AtomicBool::new(false);
+    let res = par_for(
+        chains.len() as u64,
+        ctx.threads,
+        4,
+        Some(ctx.deadline),
+        |_| 0u64,
+        |acc, i| {
+            if found.load(std::sync::atomic::Ordering::Relaxed) {
+                return; // ascending depth: deeper chains add nothing once a violation is known
+            }
+            let d = &chains[i as usize];
+            for h in [vec![d], vec![d, d]] {
+                if let Ok(el) = run_history(&h) {
+                    for preset in [Preset::QuickXml, Preset::SerdeXmlRs] {
+                        if let Ok(text) = subject::guarded(|| subject::render(&el, preset, false)) {
+                            let vs = judge(&h, &text, (1 << 56) | i);
+                            if !vs.is_empty() {
+                                found.store(true, std::sync::atomic::Ordering::Relaxed);
+                            }
+                            ctx.report_all(vs);
+                            *acc += 1;
+                        }
+                    }
+                }
+            }
+        },
+    );
+    let n: u64 = res.accs.iter().sum();
+    ctx.add("evaluations", n);
+    ctx.push("sweeps", json!({"sweep": "nesting chains", "max_depth": 120, "documents": chains.len(), "renderings": n}));
+}
+
 /// plain names, degenerate character data: text, white-space-only text and empty CDATA sections in
 /// every position of every document of a small space (all four renderings each)
 fn chardata_documents(ctx: &Ctx) {
@@ -404,14 +440,31 @@ pub fn numbering_pool() -> Vec<PoolName> {
         .collect()
 }
 
+/// names the renderer must not use as struct names (`String`, `Vec`, `Option`, `Self`, `_`) next to
+/// the names their numbered replacements would collide with
+pub fn protected_pool() -> Vec<PoolName> {
+    ["string", "String", "string1", "String1", "vec", "vec1", "Vec-1", "option", "option1", "self", "self1", "_", "__", "_1"]
+        .iter()
+        .map(|n| PoolName { name: n, category: "protected", element: true })
+        .collect()
+}
+
 pub fn run(ctx: &Ctx) {
     ctx.set("exhaustive", json!(true));
     let pool = pool(&[]);
+    sweep(ctx, "protected-name pool, 2-subsets, <=3 nodes, <=1 decorated, root named from the subset", &protected_pool(), 2,
+          &TreeParams { min_nodes: 1, max_nodes: 3, max_decorated: 1, root_from_subset: true, shard: (0, 1) }, true);
+    sweep(ctx, "protected-name pool, 3-subsets, <=3 nodes, undecorated, root named from the subset", &protected_pool(), 3,
+          &TreeParams { min_nodes: 2, max_nodes: 3, max_decorated: 0, root_from_subset: true, shard: (0, 1) }, true);
     for set in separator_sets() {
         sweep(ctx, &format!("separator-path names {:?}, 4-subsets, <=4 nodes, undecorated", set.iter().map(|p| p.name).collect::<Vec<_>>()), &set, 4,
               &TreeParams { min_nodes: 3, max_nodes: 4, max_decorated: 0, root_from_subset: false, shard: (0, 1) }, true);
+        // five nodes: a name at two places (qualified), then an element whose own name equals a qualified one
+        sweep(ctx, &format!("separator-path names {:?}, 4-subsets, 5 nodes, undecorated", set.iter().map(|p| p.name).collect::<Vec<_>>()), &set, 4,
+              &TreeParams { min_nodes: 5, max_nodes: 5, max_decorated: 0, root_from_subset: false, shard: (0, 1) }, false);
     }
     two_level_concat(ctx);
+    deep_documents(ctx);
     chardata_documents(ctx);
     sweep(ctx, "numbering pool, 4-subsets, <=4 nodes, <=1 decorated", &numbering_pool(), 4,
           &TreeParams { min_nodes: 2, max_nodes: 4, max_decorated: ctx.tier.pick(0, 1), root_from_subset: false, shard: (0, 1) }, false);
